@@ -2201,6 +2201,57 @@ def resolve_locals(root, e, depth=3):
     return unparse(sub(e, depth)).replace(" ", "")
 
 
+def adjacent_view(root):
+    """copy of `root` in which an immutable single-use `let x = init;` that is *immediately* followed by the
+    statement using it is folded into that use, whatever the initialiser is (iterator chains, closures) as
+    long as it calls nothing from the mutating list, has no `?` and no macro: naming the argument of the
+    very next statement does not change what is computed"""
+    def ok_init(e):
+        for n in walk(e):
+            k = n.get("k")
+            if k in ("Try", "Macro", "Unsafe", "Return", "Break", "Continue", "Assign"):
+                return False
+            if k == "MethodCall" and n["method"] in _IMPURE_METHODS:
+                return False
+        return True
+
+    def fold(stmts):
+        stmts = list(stmts)
+        changed = True
+        while changed:
+            changed = False
+            for i, s in enumerate(stmts[:-1]):
+                if s.get("k") != "Let" or s.get("else") or s.get("init") is None:
+                    continue
+                p = s["pat"]["pat"] if s["pat"].get("k") == "PType" else s["pat"]
+                if p.get("k") != "PIdent" or p.get("mut") or p.get("ref"):
+                    continue
+                name = p["name"]
+                if not ok_init(s["init"]) or any(ident(x) == name for x in walk(s["init"]) if x.get("k") == "Path"):
+                    continue
+                nxt = stmts[i + 1]
+                if _uses(nxt, name) != 1 or any(_uses(r, name) for r in stmts[i + 2:]):
+                    continue
+                if any(n.get("k") in ("For", "While", "Loop", "Closure") and _uses(n, name) for n in walk(nxt)):
+                    continue
+                stmts = stmts[:i] + [_subst(nxt, name, s["init"])] + stmts[i + 2:]
+                changed = True
+                break
+        return stmts
+
+    def rec(node):
+        if isinstance(node, list):
+            return [rec(x) for x in node]
+        if not isinstance(node, dict):
+            return node
+        out = {k: (rec(v) if isinstance(v, (dict, list)) and k != "tokens" else v) for k, v in node.items()}
+        if out.get("k") == "Block" and isinstance(out.get("stmts"), list):
+            out["stmts"] = fold(out["stmts"])
+        return out
+
+    return rec(root)
+
+
 def value_view(root):
     """copy of `root` in which every immutable `let x = init;` (no closure / block / macro / `?` in init) is
     folded into the uses in its own scope, whatever the initialiser reads: what each expression *is*, for
